@@ -874,19 +874,15 @@ func instrsWithNewHelpers(c *km.Ctx, fn *ssa.Function, depth int, f func(ssa.Ins
 	rec(fn, depth)
 }
 
-// checkConfigKeys: the configuration fields a property depends on are still read from the YAML keys that existing
-// configuration files use (km.ConfigKeyDrift); prefixes are "Type." (all fields) or "Type.Field" of cmd/keymasterd.
+// checkConfigKeys: the configuration values a property depends on are still read from the YAML keys that existing
+// configuration files use (km.ConfigKeyDrift); prefixes are dotted YAML key paths from the top of the file.
 func checkConfigKeys(c *km.Ctx, rule, what string, prefixes ...string) {
-	var full []string
-	for _, p := range prefixes {
-		full = append(full, KMD+"."+p)
-	}
-	n, diffs := km.ConfigKeyDrift(c.P, full)
+	n, diffs := km.ConfigKeyDrift(c.P, prefixes)
 	if n == 0 {
 		c.R.AnchorLost(rule, "recorded configuration keys of "+what)
 		return
 	}
-	c.R.Add(rule, "cmd/keymasterd", "configuration keys of "+what, "cmd/keymasterd/config.go", "each field is read from the key existing configuration files use (an unknown key is ignored and the field stays at its zero value)", sprintf("%d fields compared; %s", n, strings.Join(diffs, "; ")), len(diffs) == 0)
+	c.R.Add(rule, "cmd/keymasterd", "configuration keys of "+what, "cmd/keymasterd/config.go", "each value is read from the key existing configuration files use (an unknown key is ignored and the value stays zero)", sprintf("%d keys compared; %s", n, strings.Join(diffs, "; ")), len(diffs) == 0)
 }
 
 // callsWithNewHelpersFuncs: fn and the helpers it calls that are new to the tree, to the given depth.
